@@ -70,12 +70,12 @@ const maxOutcomes = 200000
 const maxSamples = 6
 const maxViolations = 40
 
-func (c *Ctx) Exec()                 { c.res.Executions++ }
-func (c *Ctx) AddExec(n int64)       { c.res.Executions += n }
-func (c *Ctx) AddDecisions(n int64)  { c.res.Decisions += n }
-func (c *Ctx) AddStates(n int64)     { c.res.States += n }
+func (c *Ctx) Exec()                  { c.res.Executions++ }
+func (c *Ctx) AddExec(n int64)        { c.res.Executions += n }
+func (c *Ctx) AddDecisions(n int64)   { c.res.Decisions += n }
+func (c *Ctx) AddStates(n int64)      { c.res.States += n }
 func (c *Ctx) AddTransitions(n int64) { c.res.Transitions += n }
-func (c *Ctx) AddSteps(n int64)      { c.res.Steps += n }
+func (c *Ctx) AddSteps(n int64)       { c.res.Steps += n }
 func (c *Ctx) Count(k string, n int64) {
 	c.res.Counters[k] += n
 }
